@@ -547,6 +547,35 @@ def check_C15(tier, seed):
         if status == "incomplete":
             raise ToolError("extraction incomplete for map " + kind)
         if status == "not-affine":
+            # rank arguments do not apply: look for a concrete collision on the real code instead
+            col = None
+            if kind in ("st", "lp"):
+                cs, ct = os.path.join(wd, "col.ndjson"), os.path.join(wd, "colt.ndjson")
+                vlib.write_ndjson(cs, [{"op": "reset"}, {"op": "timer", "t": 1, "readings": [vlib.u64(C)], "cont": [vlib.u64(0)]}, {"op": "jit_new", "g": 1, "t": 1},
+                                       {"op": "collide", "g": 1, "map": kind, "budget": 1 << 16 if tier == "quick" else 1 << 20}])
+                vlib.drive(binp, cs, ct)
+                for e in vlib.read_ndjson(ct):
+                    if "collision" in e:
+                        col = [vlib.from_limbs(x) for x in e["collision"]]
+            if col:
+                ops = [{"op": "timer", "t": 1, "readings": [vlib.u64(C)], "cont": [vlib.u64(0)]}, {"op": "jit_new", "g": 1, "t": 1}]
+                for w, v in ((0, col[0]), (1, col[1])):
+                    ops += [{"op": "set_pool", "g": 1, "pool": vlib.u64(v)}, {"op": "stir" if kind == "st" else "timer_stats", "g": 1, "tag": ["confirm", kind, w]}]
+                    if kind != "st":
+                        ops[-1]["var"] = False
+                cs, ct = os.path.join(wd, "c2.ndjson"), os.path.join(wd, "ct2.ndjson")
+                vlib.write_ndjson(cs, [{"op": "reset"}] + ops)
+                vlib.drive(binp, cs, ct)
+                rc = vlib.run_tlc(os.path.join(vlib.SPEC, "alg", "ALG_Confirm.tla"), os.path.join(vlib.SPEC, "alg", "ALG_Confirm.cfg"),
+                                  os.path.join(wd, "metac2"), env={"TRACE": ct}, timeout=300)
+                if '<<"COLLISION", TRUE>>' in rc["out"] and col[0] != col[1]:
+                    nviol += 1
+                    path = vlib.write_replay("C15", {"property": "C15", "case": "collision of " + names[kind], "signature": "collision|" + kind,
+                                                     "schedule": [{"op": "reset"}] + ops, "inputs": ["0x%016x" % col[0], "0x%016x" % col[1]],
+                                                     "note": "the map is not affine; the two tagged events leave the same pool: two different inputs are merged"})
+                    print("VIOLATION property=C15 replay=%s" % path)
+                    print("  %s is not affine, and inputs 0x%016x and 0x%016x give the same pool on the real code" % (names[kind], col[0], col[1]))
+                    continue
             undecided.append(kind)
             continue
         if int(rank) < 64:
@@ -1042,16 +1071,23 @@ def c07_basis_corpus(seed, tier):
     for kind in corpora.LINEAR:
         nb = 8 * corpora.SEEDLEN[kind]
         nat = corpora.native_op(kind)
-        for lo in range(0, nb, 64):
+        other = "next_u64" if nat == "next_u32" else "next_u32"
+        # every path that advances the state: the native call, the other next_*, and fill_bytes(8)
+        for path, mk in (("native", lambda: {"op": nat, "g": 1, "n": 1}), ("other", lambda: {"op": other, "g": 1}), ("fill8", lambda: {"op": "fill_bytes", "g": 1, "n": 8})):
+            for lo in range(0, nb, 64):
+                ops = []
+                for b in range(lo, min(nb, lo + 64)):
+                    o = mk()
+                    o["tag"] = ["colimg", b]
+                    ops += [{"op": "from_seed", "g": 1, "kind": kind, "seed": corpora.unit_seed(kind, b), "tag": ["col", b]}, o]
+                S.case("%s %s basis %d" % (kind, path, lo), ops)
             ops = []
-            for b in range(lo, min(nb, lo + 64)):
-                ops += [{"op": "from_seed", "g": 1, "kind": kind, "seed": corpora.unit_seed(kind, b), "tag": ["col", b]}, {"op": nat, "g": 1, "n": 1, "tag": ["colimg", b]}]
-            S.case("%s basis %d" % (kind, lo), ops)
-        ops = []
-        for r in range(24 if tier == "quick" else 200):
-            sd = [rng.getrandbits(8) for _ in range(corpora.SEEDLEN[kind])]
-            ops += [{"op": "from_seed", "g": 1, "kind": kind, "seed": sd, "tag": ["smp", r]}, {"op": nat, "g": 1, "n": 1, "tag": ["smpimg", r]}]
-        S.case("%s samples" % kind, ops)
+            for r in range(24 if tier == "quick" else 200):
+                sd = [rng.getrandbits(8) for _ in range(corpora.SEEDLEN[kind])]
+                o = mk()
+                o["tag"] = ["smpimg", r]
+                ops += [{"op": "from_seed", "g": 1, "kind": kind, "seed": sd, "tag": ["smp", r]}, o]
+            S.case("%s %s samples" % (kind, path), ops)
     return S
 
 
@@ -1186,16 +1222,18 @@ def check_C07(tier, seed):
     events, cases, tres = run_trace("C07", S, "Trace_Alg.tla", "Trace_Alg.cfg")
     nviol, notes, decided = 0, [], {}
     by_id = {c["id"]: c for c in S.cases}
-    kinds_off = sorted({by_id[r["case"]]["label"].split(" ")[0] for r in tres["rejected"] if r["case"] in by_id})
+    kinds_off = sorted({tuple(by_id[r["case"]]["label"].split(" ")[:2]) for r in tres["rejected"] if r["case"] in by_id})
     binp = vlib.build_harness()
-    for kind in kinds_off:
-        # the code's engine is not the reference engine: decide C07 on the code's own matrix
-        kevents = [ev for cid, evs in cases if cid in by_id and by_id[cid]["label"].split(" ")[0] == kind for ev in evs]
-        ex = extract_matrix(kevents, kind)
+    for kp in kinds_off:
+        # the map this path applies to the state is not the reference engine (power): decide C07 on the code's own matrix
+        kind0, path = kp
+        kind = "%s/%s" % kp
+        kevents = [ev for cid, evs in cases if cid in by_id and tuple(by_id[cid]["label"].split(" ")[:2]) == kp for ev in evs]
+        ex = extract_matrix(kevents, kind0)
         if ex is None:
             decided[kind] = ("undecided", {"why": "the transition matrix could not be extracted (from_seed does not yield the unit states, or no state image)"})
         else:
-            decided[kind] = decide_extracted(wd, kind, ex[0], ex[1], ex[2], binp)
+            decided[kind] = decide_extracted(wd, kind0, ex[0], ex[1], ex[2], binp)
         verdict, detail = decided[kind]
         if verdict == "violated":
             nviol += 1
@@ -1205,12 +1243,12 @@ def check_C07(tier, seed):
             print("VIOLATION property=C07 replay=%s" % path)
             print("  %s: %s" % (kind, detail["why"][:400]))
         else:
-            print("NOTE property=C07 %s: engine differs from the reference; C07 %s: %s" % (kind, verdict, detail["why"][:300]))
-    cov = base_cov([(events, cases, tres)], "(1) for each of the 7 distinct linear engines TLC checks the certificate: Krylov rank n and P(T)e0 = 0 (so GF(2)[x]/P -> V, f |-> f(T)e0 is an isomorphism carrying x to T), x^(2^n) = x, the listed primes multiply to 2^n - 1, and for every prime q: cofactor*q = 2^n - 1 and x^cofactor # 1 - so x has order exactly 2^n - 1, GF(2)[x]/P is a field and T is a bijection permuting the 2^n - 1 non-zero states in a single cycle; (2) the transition matrix of every one of the 15 linear generator types is extracted from the real code on the complete basis of unit-bit seeds (plus random seeds for linearity) and validated by TLC against the specification's T; (3) if a type's matrix differs from the reference, the same certificate is run on the extracted matrix and a violation is reported only with a certificate (a non-zero state stepping to zero, replayed on the code; or T^((2^n-1)/q) = I; or T^(2^n-1) # I). distinct = distinct recorded events", ["Trace_Alg", "ALG_Engine"])
+            print("NOTE property=C07 %s: state map differs from the reference; C07 %s: %s" % (kind, verdict, detail["why"][:300]))
+    cov = base_cov([(events, cases, tres)], "(1) for each of the 7 distinct linear engines TLC checks the certificate: Krylov rank n and P(T)e0 = 0 (so GF(2)[x]/P -> V, f |-> f(T)e0 is an isomorphism carrying x to T), x^(2^n) = x, the listed primes multiply to 2^n - 1, and for every prime q: cofactor*q = 2^n - 1 and x^cofactor # 1 - so x has order exactly 2^n - 1, GF(2)[x]/P is a field and T is a bijection permuting the 2^n - 1 non-zero states in a single cycle; (2) for every one of the 15 linear generator types and every path that advances the state (the native call, the other next_*, fill_bytes(8)) the transition matrix is extracted from the real code on the complete basis of unit-bit seeds (plus random seeds for linearity) and validated by TLC against the specification's T resp. T^2; (3) if a type's matrix differs from the reference, the same certificate is run on the extracted matrix and a violation is reported only with a certificate (a non-zero state stepping to zero, replayed on the code; or T^((2^n-1)/q) = I; or T^(2^n-1) # I). distinct = distinct recorded events", ["Trace_Alg", "ALG_Engine"])
     cov["certificates"] = {"%s:%s" % k: {"verified": v[0], "tlc_wall_s": round(v[2], 1), "result": v[1][:160]} for k, v in sorted(res.items(), key=lambda kv: str(kv[0]))}
     cov["obligations"] = len(tasks)
     cov["discharged"] = len(tasks)
-    cov["types_whose_matrix_equals_the_reference"] = len(corpora.LINEAR) - len(kinds_off)
+    cov["type_paths_whose_matrix_equals_the_reference"] = 3 * len(corpora.LINEAR) - len(kinds_off)
     cov["types_decided_on_their_own_matrix"] = {k: v[0] for k, v in decided.items()}
     cov["exhaustive"] = True
     cov["exhaustive_scope"] = "the certificate decides the single-cycle property for all 2^n - 1 non-zero states of each engine (n = 64, 128, 256, 512); the binding to the code is the complete transition matrix on the basis"
